@@ -34,7 +34,7 @@ RULE = ("seeded (period, max_age in {1,1.5,3,10}, initial/max buffer lengths {1,
 REQUIRED_BUCKETS = ["tick-nonempty", "tick-empty(None)", "sample-exactly-T", "sample-exactly-T-minus-age",
                     "future-sample-excluded", "old-sample-excluded", "none-or-nan-input", "zero-valued-input", "input-period-estimated",
                     "buffer-resized", "buffer-evicted", "upsampling", "downsampling", "silence>max-age",
-                    "default-resampling-function", "equal-timestamps"]
+                    "default-resampling-function", "equal-timestamps", "series-share-a-name", "function-result-NaN"]
 REQUIRED_COUNTERS = ["ticks_compared", "function_calls_observed", "input_period_estimates_checked"]
 ASSUMPTIONS = ["time-ordered inputs; virtual clock"]
 
@@ -68,7 +68,8 @@ def gen(rng: Any, tier: str, i: int) -> Any:
         series.append({"add_at": 0.0, "events": ev, "ip": ip})
     return {"period": period, "align": 0.0, "start_offset": rng.choice([0.0, 0.3, 0.999999, period / 2, 17.25]),
             "max_age": age, "init_len": init, "max_len": maxlen, "ticks": ticks, "series": series, "lat": [],
-            "drain_periods": 2, "fn": "default" if rng.random() < 0.2 else "recording"}
+            "drain_periods": 2, "fn": "default" if rng.random() < 0.2 else "recording",
+            "same_names": ns > 1 and rng.random() < 0.4, "nan_every": rng.choice([0, 0, 0, 4, 7])}
 
 
 def check(case: dict[str, Any], rec: Any) -> None:
@@ -79,6 +80,8 @@ def check(case: dict[str, Any], rec: Any) -> None:
     calls = r["calls"]
     rec.count("function_calls_observed", len(calls))
     n_nonempty = n_interesting = 0
+    if case.get("same_names"):
+        rec.bucket("series-share-a-name")
     for s in case["series"]:
         if s["ip"] < p:
             rec.bucket("downsampling")
@@ -182,7 +185,13 @@ def check(case: dict[str, Any], rec: Any) -> None:
                     rec.violation("default-function-value-is-not-the-mean-of-the-reference-selection", {**w, "mean": mean})
                 continue
             nc = e["ncalls"]
-            if not (1 <= nc <= len(calls)) or e["value"] != float(nc):
+            if case.get("nan_every") and 1 <= nc <= len(calls) and nc % case["nan_every"] == 0:
+                # the function answered NaN for a non-empty selection: that NaN is the emitted value (not None)
+                rec.bucket("function-result-NaN")
+                if e["value"] == e["value"]:
+                    rec.violation("emitted-value-is-not-the-function-result", {**w, "ncalls": nc, "function_returned": "NaN"})
+                    continue
+            elif not (1 <= nc <= len(calls)) or e["value"] != float(nc):
                 rec.violation("emitted-value-is-not-the-function-result", {**w, "ncalls": nc})
                 continue
             got = calls[nc - 1]["samples"]
